@@ -43,6 +43,33 @@ fn edge_part_check(part: &Scad, edges: &[(Pt3, Pt3)], radius: f64) -> Option<Str
     None
 }
 
+/// what a point call adds: for a single point translate(p){color(c){sphere(point radius, $fn = segments)}}, for a list one colour group
+/// (the requested colour, opaque) holding translate(p){sphere} for every point in order
+fn sphere_ok(s: &Scad, pr: f64, seg: u64) -> bool {
+    matches!(&s.op, ScadOp::Sphere { radius, fn_, .. } if *radius == pr && *fn_ == Some(seg)) && s.children.is_empty()
+}
+fn colour_ok(op: &ScadOp, col: ScadColor, need_opaque: bool) -> bool {
+    match op { ScadOp::Color { rgba: None, color: Some(c), hex: None, alpha } => *c == col && (!need_opaque || *alpha == Some(1.0) || alpha.is_none()), _ => false }
+}
+fn point_part_check(part: &Scad, pts: &[Pt3], col: ScadColor, single: bool, pr: f64, seg: u64) -> Option<String> {
+    if single {
+        let p = pts[0];
+        match &part.op { ScadOp::Translate { v } if *v == p => {}, _ => return Some(format!("the item is not translate({:?})", p)) }
+        if part.children.len() != 1 || !colour_ok(&part.children[0].op, col, false) { return Some("the point is not in the requested colour".into()); }
+        let c = &part.children[0];
+        if c.children.len() != 1 || !sphere_ok(&c.children[0], pr, seg) { return Some("the point is not a sphere of the point radius with the viewer's segment count".into()); }
+        None
+    } else {
+        if !colour_ok(&part.op, col, true) { return Some("the item is not one opaque group in the requested colour".into()); }
+        if part.children.len() != pts.len() { return Some(format!("{} spheres for {} points", part.children.len(), pts.len())); }
+        for (c, p) in part.children.iter().zip(pts.iter()) {
+            match &c.op { ScadOp::Translate { v } if *v == *p => {}, _ => return Some(format!("a sphere is not at its point {:?}", p)) }
+            if c.children.len() != 1 || !sphere_ok(&c.children[0], pr, seg) { return Some("a point is not a sphere of the point radius with the viewer's segment count".into()); }
+        }
+        None
+    }
+}
+
 pub fn emit(seed: u64, n: usize, max_ops: u64) {
     let mut r = Rng::new(seed);
     let (colors, names) = textgen::all_colors();
@@ -51,38 +78,40 @@ pub fn emit(seed: u64, n: usize, max_ops: u64) {
         let nops = if case % 11 == 0 { 0 } else { 1 + r.below(max_ops) };
         let mut ops: Vec<Box<dyn Fn(&mut Viewer)>> = Vec::new();
         let mut edges_of: Vec<Option<Vec<(Pt3, Pt3)>>> = Vec::new();
+        let mut pts_of: Vec<Option<(Vec<Pt3>, ScadColor, bool)>> = Vec::new();
+        let mut col_of: Vec<Option<ScadColor>> = Vec::new();
         let mut terms: Vec<String> = Vec::new();
         for _ in 0..nops {
             let ci = r.below(colors.len() as u64) as usize; let col = colors[ci]; let c = format!("{}%N", ci);
             match r.below(13) {
-                0 => { let p = g2(&mut r); ops.push(Box::new(move |v: &mut Viewer| v.add_pt2(p, col))); edges_of.push(None); terms.push(format!("VPt2 {} {}", t2(p), c)); }
-                1 => { let p = g3(&mut r); ops.push(Box::new(move |v: &mut Viewer| v.add_pt3(p, col))); edges_of.push(None); terms.push(format!("VPt3 {} {}", t3(p), c)); }
-                2 => { let k = r.below(4); let l: Vec<Pt2> = (0..k).map(|_| g2(&mut r)).collect(); { let l2 = l.clone(); ops.push(Box::new(move |v: &mut Viewer| v.add_pt2s(&Pt2s::from_pt2s(l2.clone()), col))); edges_of.push(None); }
+                0 => { let p = g2(&mut r); pts_of.push(Some((vec![p.as_pt3(0.0)], col, true))); col_of.push(None); ops.push(Box::new(move |v: &mut Viewer| v.add_pt2(p, col))); edges_of.push(None); terms.push(format!("VPt2 {} {}", t2(p), c)); }
+                1 => { let p = g3(&mut r); pts_of.push(Some((vec![p], col, true))); col_of.push(None); ops.push(Box::new(move |v: &mut Viewer| v.add_pt3(p, col))); edges_of.push(None); terms.push(format!("VPt3 {} {}", t3(p), c)); }
+                2 => { let k = r.below(4); let l: Vec<Pt2> = (0..k).map(|_| g2(&mut r)).collect(); pts_of.push(Some((l.iter().map(|p| p.as_pt3(0.0)).collect(), col, false))); col_of.push(None); { let l2 = l.clone(); ops.push(Box::new(move |v: &mut Viewer| v.add_pt2s(&Pt2s::from_pt2s(l2.clone()), col))); edges_of.push(None); }
                        terms.push(format!("VPt2s [{}] {}", l.iter().map(|p| t2(*p)).collect::<Vec<_>>().join("; "), c)); }
-                3 => { let k = r.below(4); let l: Vec<Pt3> = (0..k).map(|_| g3(&mut r)).collect(); { let l2 = l.clone(); ops.push(Box::new(move |v: &mut Viewer| v.add_pt3s(&Pt3s::from_pt3s(l2.clone()), col))); edges_of.push(None); }
+                3 => { let k = r.below(4); let l: Vec<Pt3> = (0..k).map(|_| g3(&mut r)).collect(); pts_of.push(Some((l.clone(), col, false))); col_of.push(None); { let l2 = l.clone(); ops.push(Box::new(move |v: &mut Viewer| v.add_pt3s(&Pt3s::from_pt3s(l2.clone()), col))); edges_of.push(None); }
                        terms.push(format!("VPt3s [{}] {}", l.iter().map(|p| t3(*p)).collect::<Vec<_>>().join("; "), c)); }
-                4 => { let k = r.below(3); let l: Vec<(Pt2, Pt2)> = (0..k).map(|_| edge2(&mut r)).collect(); { let l2 = l.clone(); edges_of.push(Some(l.iter().map(|e| (e.0.as_pt3(0.0), e.1.as_pt3(0.0))).collect())); ops.push(Box::new(move |v: &mut Viewer| v.add_lines2d(&l2, col))); }
+                4 => { let k = r.below(3); let l: Vec<(Pt2, Pt2)> = (0..k).map(|_| edge2(&mut r)).collect(); pts_of.push(None); col_of.push(Some(col)); { let l2 = l.clone(); edges_of.push(Some(l.iter().map(|e| (e.0.as_pt3(0.0), e.1.as_pt3(0.0))).collect())); ops.push(Box::new(move |v: &mut Viewer| v.add_lines2d(&l2, col))); }
                        terms.push(format!("VLines2 [{}] {}", l.iter().map(|e| format!("({}, {})", t2(e.0), t2(e.1))).collect::<Vec<_>>().join("; "), c)); }
-                5 => { let k = r.below(5); let l: Vec<(Pt3, Pt3)> = (0..k).map(|_| edge3(&mut r)).collect(); { let l2 = l.clone(); edges_of.push(Some(l.clone())); ops.push(Box::new(move |v: &mut Viewer| v.add_lines3d(&l2, col))); }
+                5 => { let k = r.below(5); let l: Vec<(Pt3, Pt3)> = (0..k).map(|_| edge3(&mut r)).collect(); pts_of.push(None); col_of.push(Some(col)); { let l2 = l.clone(); edges_of.push(Some(l.clone())); ops.push(Box::new(move |v: &mut Viewer| v.add_lines3d(&l2, col))); }
                        terms.push(format!("VLines3 [{}] {}", l.iter().map(|e| format!("({}, {})", t3(e.0), t3(e.1))).collect::<Vec<_>>().join("; "), c)); }
-                6 => { let (s, cc, e, sg) = (g2(&mut r), g2(&mut r), g2(&mut r), 1 + r.below(4)); ops.push(Box::new(move |v: &mut Viewer| v.add_quadratic_bezier2d(&QuadraticBezier2D::new(s, cc, e, sg)))); edges_of.push(None);
+                6 => { pts_of.push(None); col_of.push(None); let (s, cc, e, sg) = (g2(&mut r), g2(&mut r), g2(&mut r), 1 + r.below(4)); ops.push(Box::new(move |v: &mut Viewer| v.add_quadratic_bezier2d(&QuadraticBezier2D::new(s, cc, e, sg)))); edges_of.push(None);
                        terms.push(format!("VQuad2 {} {} {} {}%Z", t2(s), t2(cc), t2(e), sg)); }
-                7 => { let (s, cc, e, sg) = (g3(&mut r), g3(&mut r), g3(&mut r), 1 + r.below(4)); ops.push(Box::new(move |v: &mut Viewer| v.add_quadratic_bezier3d(&QuadraticBezier3D::new(s, cc, e, sg)))); edges_of.push(None);
+                7 => { pts_of.push(None); col_of.push(None); let (s, cc, e, sg) = (g3(&mut r), g3(&mut r), g3(&mut r), 1 + r.below(4)); ops.push(Box::new(move |v: &mut Viewer| v.add_quadratic_bezier3d(&QuadraticBezier3D::new(s, cc, e, sg)))); edges_of.push(None);
                        terms.push(format!("VQuad3 {} {} {} {}%Z", t3(s), t3(cc), t3(e), sg)); }
-                8 => { let (s, c1, c2, e, sg) = (g2(&mut r), g2(&mut r), g2(&mut r), g2(&mut r), 1 + r.below(4)); ops.push(Box::new(move |v: &mut Viewer| v.add_cubic_bezier2d(&CubicBezier2D::new(s, c1, c2, e, sg)))); edges_of.push(None);
+                8 => { pts_of.push(None); col_of.push(None); let (s, c1, c2, e, sg) = (g2(&mut r), g2(&mut r), g2(&mut r), g2(&mut r), 1 + r.below(4)); ops.push(Box::new(move |v: &mut Viewer| v.add_cubic_bezier2d(&CubicBezier2D::new(s, c1, c2, e, sg)))); edges_of.push(None);
                        terms.push(format!("VCubic2 {} {} {} {} {}%Z", t2(s), t2(c1), t2(c2), t2(e), sg)); }
-                9 => { let (s, c1, c2, e, sg) = (g3(&mut r), g3(&mut r), g3(&mut r), g3(&mut r), 1 + r.below(4)); ops.push(Box::new(move |v: &mut Viewer| v.add_cubic_bezier3d(&CubicBezier3D::new(s, c1, c2, e, sg)))); edges_of.push(None);
+                9 => { pts_of.push(None); col_of.push(None); let (s, c1, c2, e, sg) = (g3(&mut r), g3(&mut r), g3(&mut r), g3(&mut r), 1 + r.below(4)); ops.push(Box::new(move |v: &mut Viewer| v.add_cubic_bezier3d(&CubicBezier3D::new(s, c1, c2, e, sg)))); edges_of.push(None);
                        terms.push(format!("VCubic3 {} {} {} {} {}%Z", t3(s), t3(c1), t3(c2), t3(e), sg)); }
-                10 => { let mut ch = CubicBezierChain2D::new(g2(&mut r), g2(&mut r), g2(&mut r), g2(&mut r), 1 + r.below(3));
+                10 => { pts_of.push(None); col_of.push(None); let mut ch = CubicBezierChain2D::new(g2(&mut r), g2(&mut r), g2(&mut r), g2(&mut r), 1 + r.below(3));
                         for _ in 0..r.below(3) { ch.add(r.cad().abs() + 0.1, g2(&mut r), g2(&mut r), 1 + r.below(3)); }
                         if r.coin() { ch.close(r.cad().abs() + 0.1, g2(&mut r), r.cad().abs() + 0.1, 1 + r.below(3)); }
                         { let ch2 = ch.clone(); ops.push(Box::new(move |v: &mut Viewer| v.add_cubic_bezier_chain2d(&ch2))); edges_of.push(None); }
                         terms.push(format!("VChain2 [{}]", ch.curves.iter().map(|c| format!("Curve2 {} {} {} {} {}%Z", t2(c.start), t2(c.control1), t2(c.control2), t2(c.end), c.segments)).collect::<Vec<_>>().join("; "))); }
-                11 => { let mut ch = CubicBezierChain3D::new(g3(&mut r), g3(&mut r), g3(&mut r), g3(&mut r), 1 + r.below(3));
+                11 => { pts_of.push(None); col_of.push(None); let mut ch = CubicBezierChain3D::new(g3(&mut r), g3(&mut r), g3(&mut r), g3(&mut r), 1 + r.below(3));
                         for _ in 0..r.below(3) { ch.add(r.cad().abs() + 0.1, g3(&mut r), g3(&mut r), 1 + r.below(3)); }
                         { let ch2 = ch.clone(); ops.push(Box::new(move |v: &mut Viewer| v.add_cubic_bezier_chain3d(&ch2))); edges_of.push(None); }
                         terms.push(format!("VChain3 [{}]", ch.curves.iter().map(|c| format!("Curve3 {} {} {} {} {}%Z", t3(c.start), t3(c.control1), t3(c.control2), t3(c.end), c.segments)).collect::<Vec<_>>().join("; "))); }
-                _ => { let st = BezierStar::new(2 + r.below(2), 3.0, 0.8, 7.0, 0.9, 1 + r.below(2)); { let st2 = st.clone(); ops.push(Box::new(move |v: &mut Viewer| v.add_bezier_star(&st2))); edges_of.push(None); }
+                _ => { pts_of.push(None); col_of.push(None); let st = BezierStar::new(2 + r.below(2), 3.0, 0.8, 7.0, 0.9, 1 + r.below(2)); { let st2 = st.clone(); ops.push(Box::new(move |v: &mut Viewer| v.add_bezier_star(&st2))); edges_of.push(None); }
                        terms.push(format!("VChain2 [{}]", st.chain.curves.iter().map(|c| format!("Curve2 {} {} {} {} {}%Z", t2(c.start), t2(c.control1), t2(c.control2), t2(c.end), c.segments)).collect::<Vec<_>>().join("; "))); }
             }
         }
@@ -103,6 +132,10 @@ pub fn emit(seed: u64, n: usize, max_ops: u64) {
                     }
                     if let Some(es) = &edges_of[k - 1] {
                         if let Some(msg) = edge_part_check(parts.last().unwrap(), es, er) { println!("@@ORACLE@@ edge_runs_from_start_to_end call {}: {}", k, msg); }
+                        if let Some(c) = col_of[k - 1] { if !colour_ok(&parts.last().unwrap().op, c, true) { println!("@@ORACLE@@ edges_in_requested_colour call {}: the edge group is not opaque {:?}", k, c); } }
+                    }
+                    if let Some((ps3, c, single)) = &pts_of[k - 1] {
+                        if let Some(msg) = point_part_check(parts.last().unwrap(), ps3, *c, *single, pr, seg) { println!("@@ORACLE@@ sphere_at_each_point_in_requested_colour call {}: {}", k, msg); }
                     }
                     prev = ps;
                 }
